@@ -28,11 +28,13 @@
   delete_edges / _delete_edges                        | `ctlDeleteEdges` (all must exist, else silent)
   swap_predecessors (InvalidActionError -> warning)   | `ctlSwap` (`.invalid` / `.forceable` swallowed,
                                                       |   the state is whatever the action left)
-  update_node_attrs / _update_node_attrs              | `updRows` (UpdateNodeAttrs per node, applied
-                                                      |   at construction) + ONE `commit`; a raising
-                                                      |   element propagates out of `_update_node_attrs`
-                                                      |   BEFORE `add_new_action`: nothing registered,
-                                                      |   no refresh, earlier nodes stay updated
+  update_node_attrs / _update_node_attrs              | `updLoop` (UpdateNodeAttrs per node, applied
+                                                      |   at construction), `updRows` (as repaired by
+                                                      |   a7bb82b: a raising element rolls the earlier
+                                                      |   ones back, then propagates out of
+                                                      |   `_update_node_attrs` BEFORE `add_new_action`:
+                                                      |   nothing registered, no refresh) + ONE
+                                                      |   `commit`; `updRowsUnfixed` = before the repair
   update_segmentations                                | `St.step (.paint …)` (the caller paints first /
                                                       |   restores on refusal, as in `Session`;
                                                       |   `current_timepoint` is unused by the code)
@@ -192,18 +194,46 @@ def ctlSwap (s : St) (n1 n2 : Node) : St × Out :=
   | (s', .err .forceable) => (s', .ok)
   | r => r
 
-/-- `_update_node_attrs`: one `UpdateNodeAttrs` per node, applied at construction -/
-def updRows (s : St) (ns : List Node) (cols : List (Key × List Val)) : UOut :=
-  (indexed ns).foldl (fun acc p =>
-    thenPrim acc (fun st =>
+/-- the loop of `_update_node_attrs`: one `UpdateNodeAttrs` per node, applied at construction.
+    Result: the state reached, the records of the primitives applied so far (the Python list
+    `actions`), and the exception that ended the loop (`none`: every node was updated). -/
+def updLoop (s : St) (ns : List Node) (cols : List (Key × List Val)) : St × List PrimRec × Option Err :=
+  (indexed ns).foldl (fun (acc : St × List PrimRec × Option Err) p =>
+    match acc.2.2 with
+    | some _ => acc
+    | none =>
       match attrRow cols p.1 with
-      | none => .error .other                                -- IndexError in the comprehension
-      | some row => st.pUpdAttrs p.2 row)) (s, .ok [])
+      | none => (acc.1, acc.2.1, some .other)                -- IndexError in the comprehension
+      | some row =>
+        match acc.1.pUpdAttrs p.2 row with
+        | .ok (s', r) => (s', acc.2.1 ++ [r], none)
+        | .error e => (acc.1, acc.2.1, some e)) (s, [], none)
+
+/-- `_update_node_attrs` as repaired (`fix:` commit a7bb82b): `except Exception:
+    ActionGroup(self.tracks, actions)._rollback(); raise` — the updates already applied to earlier
+    nodes are inverted in reverse order before the exception propagates -/
+def updRows (s : St) (ns : List Node) (cols : List (Key × List Val)) : UOut :=
+  let r := s.updLoop ns cols
+  match r.2.2 with
+  | none => (r.1, .ok r.2.1)
+  | some e => (r.1.rollback r.2.1, .error e)
+
+/-- `_update_node_attrs` BEFORE the repair (no try/except): the exception of the k-th node
+    propagates with the first k-1 nodes updated. Not used by `ctlStep`; kept for the defect witness
+    `C11_controller_update_attrs_counterexample_unfixed`. -/
+def updRowsUnfixed (s : St) (ns : List Node) (cols : List (Key × List Val)) : UOut :=
+  let r := s.updLoop ns cols
+  match r.2.2 with
+  | none => (r.1, .ok r.2.1)
+  | some e => (r.1, .error e)
 
 /-- `update_node_attrs`: `action = self._update_node_attrs(…)` (may raise — then nothing below
-    runs); `action_history.add_new_action(action)`; `refresh.emit()` -/
+    runs: nothing registered, no refresh); `action_history.add_new_action(action)`; `refresh.emit()` -/
 def ctlUpdateNodeAttrs (s : St) (ns : List Node) (cols : List (Key × List Val)) : St × Out :=
   commit (s.updRows ns cols) none
+
+def ctlUpdateNodeAttrsUnfixed (s : St) (ns : List Node) (cols : List (Key × List Val)) : St × Out :=
+  commit (s.updRowsUnfixed ns cols) none
 
 def ctlStep (s : St) : CtlOp → St × Out
   | .addNodes a => s.ctlAddNodes a
